@@ -104,3 +104,24 @@ Theorem replace_only_by_strictly_higher : forall c ops t q e old,
        forall u, In u (txs (snd (b_add t q e s))) <-> u = t \/ (In u (txs s) /\ u <> old)).
 Proof. exact replace_only_higher_l. Qed.
 Print Assumptions replace_only_by_strictly_higher.
+
+(* a schedule call that returned fewer transactions than its limit left nothing
+   ready: no transaction is the successor of its sender's last emission, none sits
+   at its sender's current sequence (the pool "always picks a ready transaction next") *)
+Theorem exhausted_pass_left_nothing_ready : forall s,
+  ready s = [] ->
+  forall t, In t (txs s) ->
+    match aget (tsender t) (sched s) with
+    | Some last => last = U64MAX \/ tseq t <> last + 1
+    | None => aget (tsender t) (senders s) <> Some (tseq t)
+    end.
+Proof. exact exhausted_left_nothing_ready. Qed.
+Print Assumptions exhausted_pass_left_nothing_ready.
+
+(* mainQueue.Add / Schedule / ScheduleExtra / HandleTxsUsed (main_queue.go) are
+   compositions of the scheduler operations, hence covered by every theorem above *)
+Theorem main_queue_operations_are_scheduler_sequences : forall t q e lim picks ids,
+  tseq t <= U64MAX ->
+  Forall op_ok (q_add t q e ++ q_schedule lim picks ++ q_schedule_extra lim picks ++ q_used ids).
+Proof. exact q_ops_ok. Qed.
+Print Assumptions main_queue_operations_are_scheduler_sequences.
